@@ -1714,8 +1714,8 @@ func (s *Server) loadSubscriptions(v []storage.Subscription) {
 			NoLocal:           sub.NoLocal,
 			Identifier:        sub.Identifier,
 		}
-		if s.Topics.Subscribe(sub.Client, sb) {
-			if cl, ok := s.Clients.Get(sub.Client); ok {
+		if cl, ok := s.Clients.Get(sub.Client); ok { // a subscription belongs to a session: none without a restored client
+			if s.Topics.Subscribe(sub.Client, sb) {
 				cl.State.Subscriptions.Add(sub.Filter, sb)
 			}
 		}
